@@ -15,6 +15,9 @@ class C06(CacheProp):
             "are injected; all profiles are compared with the machine; non-trivial = at least one reference claim was "
             "checked")
 
+    # search only: the store-level race of the sweep's per-key step against an overwrite (an acknowledged write must survive)
+    stress_kinds = ("sweeprace",)
+
     def gen(self, rng, n, ctx):
         cases = cachegen.gen_cases(rng, n, ctx, self.profiles)
         for c in cases:
